@@ -10,7 +10,7 @@ Definition all_bytes : list byte := map byte_of_N (map N.of_nat (seq 0 256)).
 
 Extraction "model.ml"
   all_bytes byte_of_N bN itoa
-  parse_parameters_len oracle_C20
+  parse_parameters_len oracle_C20 oracle_C20_alloc
   parse_bmsg parse_stream enc_bmsg enc_stream wf_msg
   err_text get_code get_severity default_severity err_fields any_text flatten
   e_unimplemented oracle_C17 model_errorcode spec_fields
